@@ -578,6 +578,31 @@ impl<'a> Gen<'a> {
             let b = self.random_bound(depth - 1, allow_reads);
             return Expr::Random(Box::new(b));
         }
+        if self.r.chance(30, 1000) {
+            // the same operand twice, `e OP e`: a shape that invites a simplification at parse
+            // time - wrong when `e` draws from random(), reads a Z / X output or fails
+            let e = self.expr(depth - 1, allow_reads);
+            let op = *self.r.pick(&[
+                BinOp::Sub, BinOp::Xor, BinOp::Eq, BinOp::Ne, BinOp::Lt, BinOp::Gt, BinOp::Le, BinOp::Ge, BinOp::And, BinOp::Or, BinOp::Add,
+                BinOp::Mul,
+            ]);
+            return Expr::Bin(op, Box::new(e.clone()), Box::new(e));
+        }
+        if self.r.chance(15, 1000) {
+            // a pair of negations / an operand that cancels: -a * -b, -a + -b, (a + b) - b, a * 0, a & 0
+            let a = self.expr(depth - 1, allow_reads);
+            let b = self.expr(depth - 1, allow_reads);
+            let neg = |e: Expr| Expr::Un(UnOp::Neg, Box::new(e));
+            let bin = |o: BinOp, l: Expr, r: Expr| Expr::Bin(o, Box::new(l), Box::new(r));
+            return match self.r.below(6) {
+                0 => bin(BinOp::Mul, neg(a), neg(b)),
+                1 => bin(*self.r.pick(&[BinOp::Add, BinOp::Sub]), neg(a), neg(b)),
+                2 => bin(BinOp::Sub, bin(BinOp::Add, a, b.clone()), b),
+                3 => bin(BinOp::Mul, a, Expr::Num(0, Radix::Dec)),
+                4 => bin(BinOp::And, Expr::Num(0, Radix::Dec), a),
+                _ => Expr::Ite(Box::new(Expr::Num(self.r.below(2) as i64, Radix::Dec)), Box::new(a), Box::new(b)),
+            };
+        }
         if self.cfg.hazards > 0 && self.r.chance(self.cfg.hazards / 4, 1000) {
             let a = self.leaf(allow_reads);
             let b = self.leaf(allow_reads);
@@ -1358,5 +1383,98 @@ pub fn plant_unassigned_clash(case: &mut Case, r: &mut Prng) -> Option<String> {
             case.program.items.insert(pos2, guard);
         }
     }
+    Some(q)
+}
+
+/// Plant "the same text in two scopes" (added after seeded change T-C20-agent17-4, a parse cache
+/// keyed by the raw text of a row): a statement that reads the name `Q` - a data row, a `repeat`
+/// row or a `let` - appears once inside a loop whose counter is called `Q` and once, byte for
+/// byte the same, outside that loop, where `Q` is a device output. The layout is made uniform
+/// (one separator, no trailing comments, no stray CR, one kind of line end) so that the two
+/// copies really are the same text. Returns the name used.
+pub fn plant_scope_twins(case: &mut Case, r: &mut Prng) -> Option<String> {
+    let mut used: Vec<String> = vec![];
+    walk_items(&case.program.items, 0, &mut |it, _| match it {
+        Item::Let(n, _) | Item::Declare(n, _) | Item::Loop(n, _, _) => used.push(n.clone()),
+        _ => {}
+    });
+    let pool: Vec<String> = case
+        .script
+        .layout
+        .iter()
+        .filter_map(|&i| case.signals.get(i))
+        .filter(|s| s.is_output() && is_identlike(&s.name) && !used.contains(&s.name) && s.name != "n")
+        .map(|s| s.name.clone())
+        .collect();
+    if pool.is_empty() {
+        return None;
+    }
+    let q = r.pick(&pool).clone();
+    // a top-level row to copy (its identifiers are valid from its own position on)
+    let rows: Vec<usize> = case
+        .program
+        .items
+        .iter()
+        .enumerate()
+        .filter(|(_, it)| matches!(it, Item::Row(_, es) if es.iter().any(|e| matches!(e, Entry::Lit(..)))))
+        .map(|(i, _)| i)
+        .collect();
+    if rows.is_empty() {
+        return None;
+    }
+    let at = *r.pick(&rows);
+    let Item::Row(_, es) = &case.program.items[at] else { return None };
+    let mut es = es.clone();
+    let lits: Vec<usize> = es.iter().enumerate().filter(|(_, e)| matches!(e, Entry::Lit(..))).map(|(k, _)| k).collect();
+    let k = *r.pick(&lits);
+    let id = || Box::new(Expr::Ident(q.clone()));
+    let read = match r.below(4) {
+        0 => Expr::Ident(q.clone()),
+        1 => Expr::Bin(BinOp::Add, id(), Box::new(Expr::Num(1, Radix::Dec))),
+        2 => Expr::Bin(BinOp::And, id(), Box::new(Expr::Num(3, Radix::Dec))),
+        _ => Expr::Bin(BinOp::Xor, id(), Box::new(Expr::Num(5, Radix::Dec))),
+    };
+    es[k] = Entry::Paren(read.clone());
+    let bound = Expr::Num(1 + r.below(3) as i64, Radix::Dec);
+    let (inner, outer): (Vec<Item>, Vec<Item>) = match r.below(4) {
+        // a let, twice
+        0 => {
+            let l = Item::Let("t_w".into(), read.clone());
+            (vec![l.clone(), Item::Row(0, es.clone())], vec![l, Item::Row(0, es.clone())])
+        }
+        // a repeat row, twice (inside, `n` is the repeat's own counter either way)
+        1 => {
+            let b = Expr::Num(2, Radix::Dec);
+            (vec![Item::Repeat(0, b.clone(), es.clone())], vec![Item::Repeat(0, b, es.clone())])
+        }
+        _ => (vec![Item::Row(0, es.clone())], vec![Item::Row(0, es.clone())]),
+    };
+    let lp = Item::Loop(q.clone(), bound, inner);
+    let mut planted = if r.chance(700, 1000) {
+        let mut v = vec![lp];
+        v.extend(outer);
+        v
+    } else {
+        let mut v = outer;
+        v.push(lp);
+        v
+    };
+    if r.chance(300, 1000) {
+        // and once more after everything
+        planted.push(Item::Row(0, es.clone()));
+    }
+    let pos = at + 1;
+    for (j, it) in planted.into_iter().enumerate() {
+        case.program.items.insert(pos + j, it);
+    }
+    let lo = &mut case.layout_opts;
+    lo.sep = if lo.sep == 1 { 1 } else { 0 };
+    lo.trailing_comments = 0;
+    lo.stray_cr = 0;
+    if lo.eol == 2 {
+        lo.eol = 0;
+    }
+    let mut next = 0;
+    renumber(&mut case.program.items, &mut next);
     Some(q)
 }
